@@ -12,6 +12,7 @@
 -/
 import SnowProofs.Lemmas.Config
 import SnowProofs.Lemmas.Derived
+import SnowModel.Gen.DefaultCfg
 import Mathlib.Tactic.Tauto
 import Mathlib.Tactic.SplitIfs
 
@@ -207,6 +208,22 @@ theorem derived_visf :
 theorem derived_spatial : has c "lambda_solution" ↔ str c "dimensionality" ≠ "homogeneous" := by
   derive_inv h; all_goals simp_all [str, has, List.lookup]
 
+/-- **presence**: the thirty always-returned constants are present in the returned dict, so the
+totalisation of `num`/`str` (0 / "" for an absent key) is never used for them; the VISF, jacket and
+spatial entries are present exactly as `derived_visf` / `derived_spatial` say. -/
+theorem derived_present :
+    ∀ k ∈ ["dimensionality", "vial_arrangement", "T_eq", "T_eq_l", "a", "b", "c", "A", "V", "cp_s", "rho_l",
+        "solid_fraction", "cp_w", "cp_i", "cp_solution", "mass", "hl", "depression", "alpha", "beta_solution",
+        "Dh", "k_f", "M_s", "sigma_B", "k_B", "mass_solute", "mass_water", "height", "diameter", "configuration"],
+      has c k := by
+  derive_inv h
+  all_goals
+    intro k hk
+    simp only [List.mem_cons, List.mem_nil_iff, or_false] at hk
+    rcases hk with rfl | rfl | rfl | rfl | rfl | rfl | rfl | rfl | rfl | rfl | rfl | rfl | rfl | rfl | rfl | rfl |
+      rfl | rfl | rfl | rfl | rfl | rfl | rfl | rfl | rfl | rfl | rfl | rfl | rfl | rfl <;>
+    simp [has, List.lookup]
+
 end relations
 
 /-! ### enumeration checks -/
@@ -307,6 +324,83 @@ theorem dispatch_total (e : Enums) (hs : Supported e) : (snowingDispatch e.dimen
   obtain ⟨_, _, h3, _⟩ := hs
   simp only [List.mem_cons, List.mem_nil_iff, or_false] at h3
   rcases h3 with h3 | h3 | h3 <;> simp [snowingDispatch, h3]
+
+/-! ### the shipped default configuration (GENERATED tree `Gen.defaultCfg`): inhabitation -/
+
+/-- **`hK` of `unknown_keys_inert(_file)` holds for the shipped default file**: every path the
+generated `calculateDerived` reads uses key names of the default configuration only. -/
+theorem default_read_paths_known :
+    ∀ p ∈ readPaths, ∀ k ∈ p, k ∈ allKeys (Gen.defaultCfg : Cfg ℝ) := by decide
+
+def isOkB {ε β} : Except ε β → Bool
+  | .ok _ => true
+  | .error _ => false
+
+theorem okF_of_isOk {cfg : Cfg ℝ} {p} (h : isOkB (cfg.floatAt p) = true) : okF cfg p := by
+  unfold okF; cases hx : cfg.floatAt p with
+  | ok x => exact ⟨x, rfl⟩
+  | error e => simp [hx, isOkB] at h
+theorem okS_of_isOk {cfg : Cfg ℝ} {p} (h : isOkB (cfg.strAt p) = true) : okS cfg p := by
+  unfold okS; cases hx : cfg.strAt p with
+  | ok x => exact ⟨x, rfl⟩
+  | error e => simp [hx, isOkB] at h
+theorem okR_of_isOk {cfg : Cfg ℝ} {p} (h : isOkB (cfg.rawStrAt p) = true) : okR cfg p := by
+  unfold okR; cases hx : cfg.rawStrAt p with
+  | ok x => exact ⟨x, rfl⟩
+  | error e => simp [hx, isOkB] at h
+
+/-- the default configuration is well-typed -/
+theorem default_welltyped : WellTyped (Gen.defaultCfg : Cfg ℝ) where
+  nums := fun p hp => okF_of_isOk ((by decide :
+    ∀ p ∈ Gen.numPaths, isOkB ((Gen.defaultCfg : Cfg ℝ).floatAt p) = true) p hp)
+  strs := fun p hp => okS_of_isOk ((by decide :
+    ∀ p ∈ Gen.strPaths, isOkB ((Gen.defaultCfg : Cfg ℝ).strAt p) = true) p hp)
+  raws := fun p hp => okR_of_isOk ((by decide :
+    ∀ p ∈ Gen.rawStrPaths, isOkB ((Gen.defaultCfg : Cfg ℝ).rawStrAt p) = true) p hp)
+  nz1 := by
+    have : (Gen.defaultCfg : Cfg ℝ).floatAt ["solution", "M_s"] = .ok (Num.lit 3423 4) := by rfl
+    simp [getF, this, lit_real]
+  nz2 := by
+    have : (Gen.defaultCfg : Cfg ℝ).floatAt ["solution", "solid_fraction"] = .ok (Num.lit 5 2) := by rfl
+    simp [getF, this, lit_real]; norm_num
+
+/-- its enumerations (shelf, square, spatial_1D, cube) are in the decision table -/
+theorem default_supported : Supported (enumsOf (Gen.defaultCfg : Cfg ℝ)) := by
+  have h1 : getS (Gen.defaultCfg : Cfg ℝ) ["snowing_parameters", "configuration"] = "shelf" := by rfl
+  have h2 : getS (Gen.defaultCfg : Cfg ℝ) ["snowfall_parameters", "vial_arrangement"] = "square" := by rfl
+  have h3 : getS (Gen.defaultCfg : Cfg ℝ) ["snowing_parameters", "dimensionality"] = "spatial_1D" := by rfl
+  have h4 : getR (Gen.defaultCfg : Cfg ℝ) ["vial", "geometry", "shape"] = "cube" := by rfl
+  simp [Supported, enumsOf, h1, h2, h3, h4, Py.startsWith]
+
+/-- **the hypothesis of every `derived_*` theorem, of `supported_of_ok` and of `no_late_rejection` is
+inhabited**: `calculateDerived` returns constants for the shipped default configuration. -/
+theorem default_ok : ∃ c, Gen.calculateDerived (Gen.defaultCfg : Cfg ℝ) = .ok c :=
+  (enumeration_eval _ default_welltyped).1 default_supported
+
+/-- … and a well-typed configuration outside the table exists too (VISF + homogeneous on the default
+numbers is rejected with `NotImplementedError`): both sides of `enumeration_table` are inhabited. -/
+theorem default_visf_homogeneous_rejected :
+    ∃ cfg : Cfg ℝ, WellTyped cfg ∧ Gen.calculateDerived cfg = .error "NotImplementedError" := by
+  let u : Cfg ℝ := .node [("snowing_parameters", .node [("dimensionality", .leaf (.str "homogeneous")),
+                                                       ("configuration", .leaf (.str "VISF"))])]
+  have hw : WellTyped (update (Gen.defaultCfg : Cfg ℝ) u) := {
+    nums := fun p hp => okF_of_isOk ((by decide :
+      ∀ p ∈ Gen.numPaths, isOkB ((update (Gen.defaultCfg : Cfg ℝ) u).floatAt p) = true) p hp)
+    strs := fun p hp => okS_of_isOk ((by decide :
+      ∀ p ∈ Gen.strPaths, isOkB ((update (Gen.defaultCfg : Cfg ℝ) u).strAt p) = true) p hp)
+    raws := fun p hp => okR_of_isOk ((by decide :
+      ∀ p ∈ Gen.rawStrPaths, isOkB ((update (Gen.defaultCfg : Cfg ℝ) u).rawStrAt p) = true) p hp)
+    nz1 := by
+      have : (update (Gen.defaultCfg : Cfg ℝ) u).floatAt ["solution", "M_s"] = .ok (Num.lit 3423 4) := by rfl
+      simp [getF, this, lit_real]
+    nz2 := by
+      have : (update (Gen.defaultCfg : Cfg ℝ) u).floatAt ["solution", "solid_fraction"] = .ok (Num.lit 5 2) := by rfl
+      simp [getF, this, lit_real]; norm_num }
+  refine ⟨update Gen.defaultCfg u, hw, ?_⟩
+  apply (enumeration_eval _ hw).2
+  have h1 : getS (update (Gen.defaultCfg : Cfg ℝ) u) ["snowing_parameters", "configuration"] = "VISF" := by rfl
+  have h3 : getS (update (Gen.defaultCfg : Cfg ℝ) u) ["snowing_parameters", "dimensionality"] = "homogeneous" := by rfl
+  simp [Supported, enumsOf, h1, h3]
 
 /-! ### non-vacuity -/
 
